@@ -135,12 +135,12 @@ fn make(family: &str, mode: &str, bs: usize, w: usize, key: &[u8], iv: &[u8]) ->
         ("core", "ctr128le") => matrix_div16!(bs, w, C => CoreObj::<ctr::CtrCore<C, fl::Ctr128LE>>::new(key, iv)),
         ("core", "ofb") => matrix_all!(bs, w, C => CoreObj::<ofb::OfbCore<C>>::new(key, iv)),
         ("core", "belt") => matrix_16!(bs, w, C => CoreObj::<belt_ctr::BeltCtrCore<C>>::new(key, iv)),
-        ("cts", "cbccs1") => matrix_all!(bs, w, C => CtsObj::<cts::CbcCs1<C>>::new(key, iv)),
-        ("cts", "cbccs2") => matrix_all!(bs, w, C => CtsObj::<cts::CbcCs2<C>>::new(key, iv)),
-        ("cts", "cbccs3") => matrix_all!(bs, w, C => CtsObj::<cts::CbcCs3<C>>::new(key, iv)),
-        ("cts", "ecbcs1") => matrix_all!(bs, w, C => CtsObj::<cts::EcbCs1<C>>::new(key, iv)),
-        ("cts", "ecbcs2") => matrix_all!(bs, w, C => CtsObj::<cts::EcbCs2<C>>::new(key, iv)),
-        ("cts", "ecbcs3") => matrix_all!(bs, w, C => CtsObj::<cts::EcbCs3<C>>::new(key, iv)),
+        ("cts", "cbccs1") => matrix_all!(bs, w, C => CtsObj::<cts::CbcCs1<C>>::new_dbg(key, iv, |k: &[u8], v: &[u8]| { let m = <cts::CbcCs1<C> as cipher::KeyIvInit>::new(k.try_into().unwrap(), v.try_into().unwrap()); maybe_debug!(m) })),
+        ("cts", "cbccs2") => matrix_all!(bs, w, C => CtsObj::<cts::CbcCs2<C>>::new_dbg(key, iv, |k: &[u8], v: &[u8]| { let m = <cts::CbcCs2<C> as cipher::KeyIvInit>::new(k.try_into().unwrap(), v.try_into().unwrap()); maybe_debug!(m) })),
+        ("cts", "cbccs3") => matrix_all!(bs, w, C => CtsObj::<cts::CbcCs3<C>>::new_dbg(key, iv, |k: &[u8], v: &[u8]| { let m = <cts::CbcCs3<C> as cipher::KeyIvInit>::new(k.try_into().unwrap(), v.try_into().unwrap()); maybe_debug!(m) })),
+        ("cts", "ecbcs1") => matrix_all!(bs, w, C => CtsObj::<cts::EcbCs1<C>>::new_dbg(key, iv, |k: &[u8], _v: &[u8]| { let m = <cts::EcbCs1<C> as cipher::KeyInit>::new(k.try_into().unwrap()); maybe_debug!(m) })),
+        ("cts", "ecbcs2") => matrix_all!(bs, w, C => CtsObj::<cts::EcbCs2<C>>::new_dbg(key, iv, |k: &[u8], _v: &[u8]| { let m = <cts::EcbCs2<C> as cipher::KeyInit>::new(k.try_into().unwrap()); maybe_debug!(m) })),
+        ("cts", "ecbcs3") => matrix_all!(bs, w, C => CtsObj::<cts::EcbCs3<C>>::new_dbg(key, iv, |k: &[u8], _v: &[u8]| { let m = <cts::EcbCs3<C> as cipher::KeyInit>::new(k.try_into().unwrap()); maybe_debug!(m) })),
         ("toy", _) => matrix_all!(bs, w, C => RawObj::<C>::new(key)),
         _ => None,
     }
